@@ -21,9 +21,62 @@ def _round_half_even(x):
     return int(round(x))
 
 
+
+def _is_documented_writer(prog, g):
+    for d in g.decorators:
+        if isinstance(d, ast.Call):
+            r = prog.resolve_expr(None, g.module, d.func)
+            if r and r[0] == "func" and r[1].name == "document_write_input":
+                return True
+    return False
+
+
+def input_base(prog):
+    """The shared rendering routine of the input writers, found by what it is -- the one function outside the program
+    modules that every documented `write_input` calls with the file, the object, a template and an atom-line function --
+    not by its name."""
+    cands = None
+    for short, m in sorted(prog.input_modules().items()):
+        g = prog.funcs.get(f"{m.name}.write_input")
+        if g is None or not _is_documented_writer(prog, g):
+            continue
+        here = set()
+        for n in g.own_nodes():
+            if isinstance(n, ast.Call):
+                r = prog.resolve_expr(g, g.module, n.func)
+                if r and r[0] == "func" and r[1].module.name.startswith("iodata.inputs.") and r[1].module is not g.module and len(r[1].posparams) >= 5:
+                    here.add(r[1].qualname)
+        cands = here if cands is None else cands & here
+    if not cands or len(cands) != 1:
+        raise AnalysisError(f"the shared routine of the input writers cannot be identified (candidates: {sorted(cands or [])})")
+    return prog.func(next(iter(cands)))
+
+
+def check_registered_programs(ctx, rid):
+    """`Unknown program names raise FileFormatError`: the registry of input programs is every module of iodata.inputs
+    with a module-level `write_input`; each of them must be a documented program writer (the `document_write_input`
+    decorator, the signature api.write_input calls).  A helper module that exposes that name becomes a program."""
+    prog = ctx.prog
+    api_wi = prog.func("iodata.api.write_input")
+    n = 0
+    for short, m in sorted(prog.input_modules().items()):
+        b = m.bindings["write_input"]
+        g = prog.funcs.get(f"{m.name}.write_input") if b.kind == "func" else None
+        if g is None or not _is_documented_writer(prog, g):
+            ctx.violate(rid, f"iodata.inputs.{short} has a module-level `write_input` that is not a documented program writer: the registry builder registers `{short}` as an input program, so write_input(..., fmt='{short}') no longer raises FileFormatError", relpath=m.relpath, function=f"{m.name}.write_input", node=(g.node if g is not None else None), construct=f"registered input module {short} is not a program")
+            continue
+        if len(g.posparams) < 4 or g.kwarg is None:
+            ctx.violate(rid, f"{short}.write_input does not take (file, object, template, atom_line, **fields) as api.write_input passes them", g, g.node, construct=f"{short}.write_input signature")
+            continue
+        n += 1
+    if n < 2:
+        raise AnalysisError("fewer than two input programs found (gaussian, orca expected)")
+    ctx.ok(rid, f"{n} registered input modules, all documented program writers with the signature api.write_input uses", api_wi.where)
+
+
 def check_field_semantics(ctx, rid_round="R3", rid_prec="R4", rid_defaults="R5"):
     prog = ctx.prog
-    base = prog.func("iodata.inputs.common.write_input_base")
+    base = input_base(prog)
     iocls = prog.cls("iodata.iodata.IOData")
     user_param = base.posparams[4]
     # prefix of the base routine that builds the field dictionary (everything before the geometry is rendered)
@@ -270,7 +323,7 @@ def check_rendering(ctx, rid):
     from ..accessors import TextSink
 
     prog = ctx.prog
-    base = prog.func("iodata.inputs.common.write_input_base")
+    base = input_base(prog)
     iocls = prog.cls("iodata.iodata.IOData")
     f = {name: None for name in iocls.fields}
     f.update(title="T", atnums=np.array([17, 1, 8]), atcoords=np.zeros((3, 3)), _charge=-1.0, _spinpol=2.0, extra={}, atcharges={}, atffparams={}, moments={}, one_rdms={}, two_rdms={})
